@@ -83,6 +83,7 @@ FF(c, Q, n) == LET s2 == S2(Q)
 EvalClause(e) ==
   LET k == <<e.z, e.q, e.jn>>
   IN IF k \notin DOMAIN mag THEN "EvalOfUnknownSet"
+     ELSE IF ~\E x \in mag[k] : SeqIs(e.coef, x) THEN "EvalWithCoefficientsNotInTable"
      ELSE LET c == CHOOSE x \in mag[k] : SeqIs(e.coef, x)
               want == FF(c, e.Q, IF e.jn \in {"j0", "J"} THEN 0 ELSE 1)
           IN IF e.val.k # "num" \/ ~CloseScaled(e.val.v, want, -10, One) THEN "FormFactorEquation"
